@@ -83,6 +83,9 @@ def gen_relay():
         yield Case(line(["fs.1.90", "ap.1.1", "pushok.1.0", "tick.1", "kick.1.c1", "gone.1", "tick.2", "cp.1.2", "tick.3", "gone.2", "pp.1.3", "tick.4", "kick.1.c3", "tick.5"], cfg), cls="push")
         yield Case(line(["fs.1.90", "rp.1.1", "rp.1.2", "pushok.1.0", "gone.2", "tick.1", "spull.1.0.n1", "tick.2", "gone.1", "tick.3", "psucc.1.0", "tick.4", "pdone.1.0"], cfg), cls="push")
         yield Case(line(["fs.1.90", "rp.1.1", "pushok.1.0", "dispose", "gone.1"], cfg), cls="push")
+        # F-15 end to end: the publisher's URL parameters travel through a real relay push (client goroutine of lal)
+        for n in (300, 3000, 5000):
+            yield Case(line(["fs.1.90", "rp.1.1.L%d" % n, "pushok.1.0", "media.1", "tick.1", "gone.1", "tick.2"], cfg), cls="push-long-url")
 
 
 def rand_relay(rng, n_ops):
